@@ -23,6 +23,7 @@ from .solve import solve_all
 from .speclib import SpecLib, ASSUMPTIONS
 
 VERIF = os.path.dirname(os.path.dirname(os.path.abspath(__file__)))
+OUT = os.environ.get("PYVC_OUT", VERIF)   # dev only: redirect evidence/replays when checking a scratch copy
 VENV_PY = "/venv/bin/python"
 
 
@@ -285,7 +286,7 @@ class PropertyCheck:
                     o.note += f" [split by known finding {k['id']}]"
 
     def handle_refuted(self, o, r, by_fn):
-        os.makedirs(os.path.join(VERIF, "replays", self.prop), exist_ok=True)
+        os.makedirs(os.path.join(OUT, "replays", self.prop), exist_ok=True)
         safe = o.name.replace("/", "__").replace("[", "_").replace("]", "_").replace("@", "_at_").replace(":", "_")
         path = os.path.join("replays", self.prop, f"{safe}.json")
         rec = {"property": self.prop, "obligation": o.name, "function": o.fn, "kind": o.kind,
@@ -310,7 +311,7 @@ class PropertyCheck:
                                    failed_clauses=rr["failed"], observed=rr.get("observed"), detail=rr.get("detail"))
                         break
                 rec["inputs_tried"] = len(tried)
-        with open(os.path.join(VERIF, path), "w") as f:
+        with open(os.path.join(OUT, path), "w") as f:
             json.dump(rec, f, indent=1, default=str)
         tail = "" if rec["reproduced"] else " no-failing-input-found"
         self.violations.append({"obligation": o.name, "replay": path, "reproduced": rec["reproduced"]})
@@ -397,9 +398,9 @@ class PropertyCheck:
             else:
                 self.errors.append(f"native harness problem for {c.qualname}: {r}")
         for q, (a, r) in standin_hits.items():
-            os.makedirs(os.path.join(VERIF, "replays", self.prop), exist_ok=True)
+            os.makedirs(os.path.join(OUT, "replays", self.prop), exist_ok=True)
             path = os.path.join("replays", self.prop, f"standin_{q.replace('.', '_')}.json")
-            with open(os.path.join(VERIF, path), "w") as fh:
+            with open(os.path.join(OUT, path), "w") as fh:
                 json.dump({"property": self.prop, "obligation": f"{q}/" + ",".join(r["failed"]), "function": q,
                            "found_by": "bounded-standin", "reproduced": True, "concrete_call": {"function": q, "args": a},
                            "failed_clauses": r["failed"], "observed": r.get("observed"),
@@ -419,8 +420,8 @@ class PropertyCheck:
             self.bounded.append(r)
             for f in r.get("failures", []):
                 path = os.path.join("replays", self.prop, f"bounded_{r['name']}_{len(self.violations)}.json")
-                os.makedirs(os.path.join(VERIF, "replays", self.prop), exist_ok=True)
-                with open(os.path.join(VERIF, path), "w") as fh:
+                os.makedirs(os.path.join(OUT, "replays", self.prop), exist_ok=True)
+                with open(os.path.join(OUT, path), "w") as fh:
                     json.dump({"property": self.prop, "obligation": f"bounded:{r['name']}", "found_by": "bounded-standin",
                                "reproduced": True, **f}, fh, indent=1, default=str)
                 if self.is_known_failure(f):
@@ -506,8 +507,8 @@ class PropertyCheck:
         ev = {"property_id": self.prop, "tier": self.tier, "seed": self.seed, "level": level, "coverage": cov,
               "assumptions": assumption_text, "wall_s": round(time.time() - self.t0, 2),
               "violations": len(self.violations)}
-        os.makedirs(os.path.join(VERIF, "evidence"), exist_ok=True)
-        with open(os.path.join(VERIF, "evidence", f"{self.prop}.json"), "w") as f:
+        os.makedirs(os.path.join(OUT, "evidence"), exist_ok=True)
+        with open(os.path.join(OUT, "evidence", f"{self.prop}.json"), "w") as f:
             json.dump(ev, f, indent=1, default=str)
 
     def finish(self):
